@@ -873,7 +873,11 @@ func (f *fragment) unprotectedClearRow(rowID uint64) (changed bool, err error) {
 		// to return true if any existing data was removed.
 		if cont := f.storage.Containers.Get(k); cont != nil {
 			f.storage.Containers.Remove(k)
-			changed = true
+			// Clears can leave empty containers behind; removing one of
+			// those changes nothing.
+			if cont.N() > 0 {
+				changed = true
+			}
 		}
 	}
 
